@@ -120,3 +120,10 @@ CLAIMED["C16"] = (
     _TRUST + " The independent splitter/field comparer in vf/props/c16.py; encoded words that split a character and MIME parameter quoting are not judged.",
     "DESIGN.md section 4 C16",
 )
+CLAIMED["C07"] = (
+    "exploration",
+    "property-based testing: Hypothesis-generated messages (C16's raw MIME generator + fixture corpus), mailbox names, keyword atoms and error-path commands; oracle = strict independent RFC 3501 response parser over every session's whole byte stream, structural validation of ENVELOPE/BODYSTRUCTURE/LIST/STATUS, and round trip of header values and mailbox names",
+    "Everything the server writes in a case (FETCH of ENVELOPE/BODYSTRUCTURE/BODY/sections/partials for generated messages, LIST/LSUB/STATUS/SELECT for generated names, flag lists for generated keywords, refusals that echo client text, IDLE misuse) must parse under a strict response reader that shares no code with asimap; decoded Subject/Message-ID/In-Reply-To and mailbox names must equal what was planted.",
+    _TRUST + " The response grammar as implemented in vf/wire.py.",
+    "DESIGN.md section 4 C07",
+)
